@@ -215,13 +215,17 @@ pub fn run(ctx: &mut Ctx) {
     // long inputs: thresholds at which bulk / block paths would switch on
     for id in ALL_CODECS {
         let m = id.model();
-        let th = ctx.thorough();
-        let cases = ctx.cases(6, 8);
+        let lens = gen::long_lens(ctx.thorough());
         let acc = m.accepted_bytes();
-        let st = (gen::long_len(th), prop_oneof![2 => Just(0usize), 1 => Just(1usize)])
-            .prop_flat_map(move |(n, nbad)| (vec(select(acc.clone()), n), vec((any::<u16>(), bad_char(m)), nbad)))
-            .prop_map(move |(body, bad)| Case { codec: id, body, bad });
-        ctx.forall(&format!("parse_long/{}", id.name()), cases, st, dispatch);
+        ctx.forall_lens(
+            &format!("parse_long/{}", id.name()),
+            &lens,
+            |n| {
+                let acc = acc.clone();
+                (vec(select(acc), n), prop_oneof![3 => Just(0usize), 1 => Just(1usize)]).prop_flat_map(move |(body, nbad)| (Just(body), vec((any::<u16>(), bad_char(m)), nbad))).prop_map(move |(body, bad)| Case { codec: id, body, bad })
+            },
+            dispatch,
+        );
     }
     // every single byte as a one-symbol string, and behind / in front of one valid symbol (exhaustive)
     let cells: Vec<Case> = ALL_CODECS
